@@ -98,7 +98,12 @@ def run_case(E, case):
         if case["kind"] == "reduce":
             return R.shadow_call(E, case, R.shadow_arrays(case, d))
         return fam.call(E, case, d)
-    paths = run_paths(body)
+    try:
+        paths = run_paths(body)
+    except (Unsupported, OutsideModel):
+        raise
+    except Exception as e:      # noqa: BLE001
+        return common.raises_result(E, inp, PROP, f"{case['kind']}:{case.get('func') or case.get('op')}:{real_np.dtype(case['dtype']).kind}", case, e, t0)
     bads = []
     want = expected_result_dtype(case)
     for pc, out, rt in paths:
@@ -195,7 +200,12 @@ def run_layout(E, case):
         gb = make_gb(E, G, codes=A(st.global_codes(), "int64"))
         (r, c), = gb._apply_gb_func_across_chunked_group_keys(case["func"], [A(vs, "float64")], None)
         return r, c
-    p1, p2 = run_paths(chunked), run_paths(contiguous)
+    try:
+        p1, p2 = run_paths(chunked), run_paths(contiguous)
+    except (Unsupported, OutsideModel):
+        raise
+    except Exception as e:      # noqa: BLE001
+        return common.raises_result(E, inp, PROP, f"layout:{case['func']}", case, e, t0)
     bads = []
     for pc1, (r1, c1), rt1 in p1:
         for pc2, (r2, c2), rt2 in p2:
